@@ -602,7 +602,7 @@ impl SubCheckT for Counts {
     const NAME: &'static str = "counts";
     const RULE: &'static str = "a function (random truth table over <=6 variables with a random support mask, or a random CNF over <=7) represented as BDDs under 3 random orders (regular and negated pointers), SDDs under 2 random vtrees (second one uncompressed when n<=4; regular and negated) and, for CNFs, both top-down stores; weight tables built in four ways (set_weight ascending / descending / WmcParams::new / placeholders overwritten in a scrambled order), weights whose low+high is the semiring's one: real dyadics k/8, all 7 exported finite fields (boundary + random residues), expected utility (p,u)/(1-p,-u), complex, degree-2 integer polynomials, rational indicators: every count = exact brute-force sum over models; evaluate() = truth-table bit on all 2^n assignments; arbitrary non-normalised weights on the canonical BDDs = the Shannon sum over the variables each sub-function depends on (order-aware), for all seven semirings. Non-trivial: non-constant function with >=3 support variables";
     fn cases(tier: Tier) -> u32 {
-        tier.pick(1600, 50_000)
+        tier.pick(5000, 60_000)
     }
     fn strategy(_tier: Tier) -> BoxedStrategy<Case> {
         (
